@@ -27,6 +27,10 @@ CASES = [
 """)]),
     dict(id='c06-revert-get-default-fix', prop='C06', file=S, expect='violation',
          edits=[("          self.var_positional_start is None\n          or argument < self.var_positional_start", "          self.var_positional_start is not None\n          and argument < self.var_positional_start")]),
+    dict(id='c06-revert-alias-recorded-fix', prop='C06', file=C,
+         expect='violation',
+         edits=[("        paths.append((path, seen[id(value)][1]))\n        return\n",
+                 "        return\n")]),
     dict(id='c06-asymmetric-defaults', prop='C06', file=C, expect='violation',
          edits=[("    v2 = get_value_or_default(key, y)", "    v2 = y.__arguments__.get(key, missing)")]),
     dict(id='c06-keys-of-x-only', prop='C06', file=C, expect='violation',
